@@ -147,6 +147,7 @@ type Engine struct {
 	fmtLenient  bool
 	usedClock   bool
 	lastFn      string
+	explicitYield bool
 	gzWriters   map[*Backing]*gzW
 	gzReaders   map[*Backing]*gzR
 	gzSpin      int
